@@ -148,6 +148,11 @@ class InterpMixin(object):
         if isinstance(obj, Sym):
             if name == "__class__":
                 return self.type_of(obj)
+            if not hasattr(self.type_of(obj), name):
+                if default is not _MISSING:
+                    return default
+                self.py_raise(AttributeError, "'%s' object has no attribute '%s'"
+                              % (self.type_of(obj).__name__, name))
             return SMethod(obj, None, name)
         if isinstance(obj, Opaque):
             if default is not _MISSING:
